@@ -672,6 +672,13 @@ def high_precision_delay_probe(ck: Ck, base: str, wd: str) -> None:
 
 
 # ------------------------------------------------------------------------------------------------ main
+def coq_strs(xs: list[str]) -> str:
+    out = 'nil'
+    for x in reversed(xs):
+        out = f'(cons "{x}" {out})'
+    return out
+
+
 def glue_obligations(glue: dict) -> dict[str, str]:
     obs = {
         'vis_row_size_reader_is_ceil8': 'rowsize_ok vis_row_reader',
@@ -683,6 +690,17 @@ def glue_obligations(glue: dict) -> dict[str, str]:
         'texdata_guard_fits_reader_window': 'texcfg_guard_fits_window tex_cfg',
         'texdata_codec_agrees': 'tex_codec_same',
     }
+    for r in glue.get('records', {}):
+        obs[f'record_fields_agree:{r}'] = f'record_ok_named layouts streams records "{r}"'
+    for fam, members in (('faces', ['faces', 'faces_vitamin']), ('leafs', ['leafs', 'leafs_v19', 'leafs_vitamin']),
+                         ('brushsides', ['brushsides', 'brushsides_vitamin']), ('texdata', ['texdata', 'texdata_vitamin']),
+                         ('nodes', ['nodes']), ('bmodels', ['bmodels']), ('planes', ['planes'])):
+        obs[f'record_variants_cover_every_layout:{fam}'] = f'layouts_covered_once layouts records {coq_strs(members)}'
+    obs['overlay_render_order_bits_agree'] = 'overlay_bits_ok overlay_bits overlay_writer_max_faces'
+    obs['face_primitive_count_bits_agree'] = 'face_prim_bits_ok face_prim_bits'
+    obs['leaf_flags_fit_below_area_shift'] = 'leaf_flags_fit leaf_area_offset leaf_flag_values'
+    obs['leaf_area_shift_is_the_layout_constant_on_both_sides'] = 'leaf_area_shift_from_layout'
+    obs['brushside_bevel_masks_complementary'] = 'bevel_masks_complementary'
     return obs
 
 
@@ -793,13 +811,22 @@ def run(ck: Ck) -> None:
                'brushes': ['brushes'], 'planes': ['planes'], 'vertexes': ['vertexes'], 'edges': ['surfedges'], 'surfedges': ['surfedges'],
                'prim': ['primitives'], 'tex': ['texinfo', 'textures'], 'bmodels': ['bmodels'], 'physcollide': ['bmodels'],
                'cubemaps': ['cubemaps'], 'overlay': ['overlays'], 'prop_dict': ['props', 'detail_props'], 'sprp': ['props'],
-               'dprp': ['detail_props'], 'vis': ['visibility'], 'leafwater': ['water_leaf_info'], 'leaf': ['visleafs'], 'faceids': ['faces']}
+               'dprp': ['detail_props'], 'vis': ['visibility'], 'leafwater': ['water_leaf_info'], 'leaf': ['visleafs'], 'faceids': ['faces'],
+               'texdata': ['texinfo'], 'texinfo': ['texinfo'], 'primitives': ['primitives']}
     hit_views = {k.split(':')[0] for k in keys} | ({'!any'} if any(k.startswith('!') for k in keys) else set())
     for o in ck.obligations:
         if o['ok']:
             continue
         nm = o['name']
-        if nm.startswith('instance:lump_formats_agree:'):
+        if nm.startswith('instance:overlay_render_order') and hit_views & {'overlays', '!any'}:
+            ck.explain(nm)
+        if nm.startswith('instance:face_primitive_count') and hit_views & {'faces', 'orig_faces', 'hdr_faces', '!any'}:
+            ck.explain(nm)
+        if nm.startswith('instance:leaf_') and hit_views & {'visleafs', 'no-reject', '!any'}:
+            ck.explain(nm)
+        if nm.startswith('instance:brushside_bevel') and hit_views & {'brushes', '!any'}:
+            ck.explain(nm)
+        if nm.startswith('instance:lump_formats_agree:') or nm.startswith('instance:record_fields_agree:'):
             st = nm.split(':', 2)[2]
             for pref, views in view_of.items():
                 if st.startswith(pref) and (hit_views & set(views) or '!any' in hit_views or '!save' in hit_views or '!read' in hit_views):
